@@ -64,8 +64,8 @@ def part_a(ctx, rng, n):
         impl = rng.choice(["C", "Py"])
         mode = rng.choice({"O": ["none-int", "str", "int"]}.get(fn[0], [None, "extreme"] if fn != "fs" else [None]))
         env = TreeEnv(fn, kind, impl, mode)
-        ml, mi = rng.choice([(2, 2), (3, 3), (4, 4), (1, 2)])
-        calls = gen_history(rng, kind, rng.choice([8, 20, 40]), rng.choice([20, 60]), avoid0=(mode == "none-int"))
+        ml, mi = rng.choice([(2, 2), (2, 2), (2, 3), (3, 3), (4, 4), (1, 2)])
+        calls = gen_history(rng, kind, rng.choice([8, 20, 40, 60]), rng.choice([20, 60, 100]), avoid0=(mode == "none-int"))
         ref = RefMap()
         nsweeps = 0
         with env.sized(ml, mi):
@@ -268,11 +268,59 @@ def part_c(ctx, rng, n):
                 ctx.oracle_failure("C:%s:not-evictable" % kind, "%s%s/C: %d node(s) cannot be evicted after the probes" % (fn, kind, len(left)), {"family": fn, "kind": kind})
 
 
+def part_d(ctx, rng, n):
+    """set algebra and multiunion on stored operands that have been evicted (ghosts)"""
+    from harness.families import BOUNDS
+    for it in range(n):
+        fn = rng.choice(ALL_FAMS)
+        impl = rng.choice(["C", "Py"])
+        envs = [TreeEnv(fn, rng.choice(["Set", "TreeSet", "Bucket", "BTree"]), impl, "int" if fn[0] == "O" else None) for _ in range(2)]
+        envs[1].km, envs[1].vm = envs[0].km, envs[0].vm
+        f = envs[0].f
+        keysets = [sorted(rng.sample(range(40), rng.randint(0, 14))) for _ in range(2)]
+        with envs[0].sized(3, 3), envs[1].sized(3, 3):
+            st = Storage()
+            jar = Jar(st)
+            ops = []
+            for env, ks in zip(envs, keysets):
+                t = env.new()
+                for k in ks:
+                    if env.setlike:
+                        t.add(env.k(k))
+                    else:
+                        t[env.k(k)] = env.v(1)
+                jar.add(t)
+                ops.append(t)
+            jar.commit()
+            A, B = set(keysets[0]), set(keysets[1])
+            todo = [("union", A | B), ("intersection", A & B), ("difference", A - B)]
+            if f.kk in BOUNDS:
+                todo.append(("multiunion", A | B))
+            for name, want in todo:
+                jar.minimize()
+                fnc = f.func(name, impl)
+                if fnc is None:
+                    continue
+                try:
+                    r = fnc(ops) if name == "multiunion" else fnc(ops[0], ops[1])
+                    got = [envs[0].km.ik(k) for k in r]
+                except Exception as e:  # noqa
+                    got = "raises " + type(e).__name__
+                ctx.count(("d", fn, impl, name, tuple(keysets[0]), tuple(keysets[1]), envs[0].kind, envs[1].kind))
+                if got != sorted(want):
+                    ctx.oracle_failure("%s:%s:on-evicted-operands" % (impl, name),
+                                       "%s/%s %s(%s%r, %s%r) with both operands evicted from the cache -> %r, expected %r" % (
+                                           fn, impl, name, envs[0].kind, keysets[0], envs[1].kind, keysets[1], got, sorted(want)),
+                                       {"family": fn, "impl": impl, "fn": name, "kinds": [envs[0].kind, envs[1].kind], "keys": keysets})
+                    break
+
+
 def run(ctx):
     rng = ctx.rng
-    part_a(ctx, rng, ctx.n(150, 4000))
-    part_b(ctx, rng, ctx.n(120, 3000))
-    part_c(ctx, rng, ctx.n(150, 3000))
+    part_a(ctx, rng, ctx.n(600, 12000))
+    part_b(ctx, rng, ctx.n(300, 8000))
+    part_c(ctx, rng, ctx.n(400, 8000))
+    part_d(ctx, rng, ctx.n(300, 6000))
     ctx.traces = ctx.evaluations
 
 
